@@ -127,6 +127,7 @@ static void print_recs(void)
 /* custom-callback access: an independent implementation of the read/seek contract of zstd_seekable.h */
 typedef struct { const unsigned char* p; size_t size; size_t head; unsigned long long nread, nseek;
                  unsigned long long fail_seek, fail_read;   /* fault injection: the k-th next call fails once (0 = never) */ } cbsrc_t;
+static int g_cb_ok = 0;   /* value the callbacks return on success: the header allows any non-negative value */
 static int cb_read(void* opaque, void* buffer, size_t n)
 {
     cbsrc_t* s = (cbsrc_t*)opaque; size_t i;
@@ -135,7 +136,7 @@ static int cb_read(void* opaque, void* buffer, size_t n)
     if (n > s->size - s->head) return -1;              /* premature EOF is an error */
     for (i = 0; i < n; i++) ((unsigned char*)buffer)[i] = s->p[s->head + i];
     s->head += n;
-    return 0;
+    return g_cb_ok;
 }
 static int cb_seek(void* opaque, long long offset, int origin)
 {
@@ -146,7 +147,7 @@ static int cb_seek(void* opaque, long long offset, int origin)
     np = base + offset;
     if (np < 0 || (unsigned long long)np > s->size) return -1;
     s->head = (size_t)np;
-    return 0;
+    return g_cb_ok;
 }
 
 /* ---------------------------------------------------------------- state */
@@ -334,6 +335,71 @@ int main(int argc, char** argv)
             if (!ZSTD_isError(r)) printf(" n=%u cf=%d", ZSTD_seekable_getNumFrames(zs), zs->seekTable.checksumFlag);
             g_nrec = 0;
             printf("\n");
+        } else if (!strcmp(cmd, "reopenf") || !strcmp(cmd, "reopencb")) {
+            /* reopenf <path> | reopencb : ZSTD_seekable_initFile / ZSTD_seekable_initAdvanced on the SAME object with the current
+             * archive bytes (the header documents re-initialisation: the source stays alive "until the object is freed or reset") */
+            size_t r; unsigned char* old = memcopy; FILE* oldf = zs_file; char path[4096]; path[0] = 0;
+            sscanf(line + off, "%4095s", path);
+            if (!zs) { zs = ZSTD_seekable_create(); g_skipbuf = zs->outBuff; g_curFramePtr = &zs->curFrame; }
+            memcopy = NULL; zs_file = NULL;
+            if (cmd[6] == 'f') {
+                FILE* f = fopen(path, "wb"); fwrite(A.p, 1, A.n, f); fclose(f);
+                zs_file = fopen(path, "rb");
+                r = ZSTD_seekable_initFile(zs, zs_file);
+            } else {
+                ZSTD_seekable_customFile cf;
+                memcopy = (unsigned char*)malloc(A.n ? A.n : 1); if (A.n) memcpy(memcopy, A.p, A.n);
+                cbsrc.p = memcopy; cbsrc.size = A.n; cbsrc.head = 0; cbsrc.nread = cbsrc.nseek = 0; cbsrc.fail_seek = cbsrc.fail_read = 0;
+                cf.opaque = &cbsrc; cf.read = cb_read; cf.seek = cb_seek;
+                r = ZSTD_seekable_initAdvanced(zs, cf);
+            }
+            free(old); if (oldf) fclose(oldf);
+            printf("%s", cmd); print_ret("ret", r);
+            if (!ZSTD_isError(r)) printf(" n=%u cf=%d", ZSTD_seekable_getNumFrames(zs), zs->seekTable.checksumFlag);
+            g_nrec = 0;
+            printf("\n");
+        } else if (!strcmp(cmd, "rawarch")) {
+            /* rawarch <tableChecksumFlag> <zstdChecksumFlag> <level> <frameSize> : the documented raw seek-table API: the content is cut
+             * into pieces of frameSize bytes, each compressed independently with ZSTD_compress2 (with or without zstd's own content
+             * checksum), logged with ZSTD_seekable_logFrame, the table appended with ZSTD_seekable_writeSeekTable */
+            int cf, zck, level; unsigned long long fs; size_t pos = 0; ZSTD_frameLog* fl; ZSTD_CCtx* cc = ZSTD_createCCtx(); size_t wr = 0; unsigned nf = 0;
+            sscanf(line + off, "%d %d %d %llu", &cf, &zck, &level, &fs);
+            if (fs == 0) fs = 1;
+            fl = ZSTD_seekable_createFrameLog(cf);
+            A.n = 0;
+            printf("rawarch log :");
+            do {
+                size_t const n = X.n - pos < fs ? X.n - pos : (size_t)fs;
+                size_t const bound = ZSTD_compressBound(n); unsigned char* ob = (unsigned char*)malloc(bound ? bound : 1); size_t r;
+                unsigned const h = (unsigned)(XXH64(X.p + pos, n, 0) & 0xFFFFFFFFU);
+                ZSTD_CCtx_reset(cc, ZSTD_reset_session_and_parameters);
+                ZSTD_CCtx_setParameter(cc, ZSTD_c_compressionLevel, level);
+                ZSTD_CCtx_setParameter(cc, ZSTD_c_checksumFlag, zck);
+                r = ZSTD_compress2(cc, ob, bound, X.p + pos, n);
+                if (ZSTD_isError(r)) { printf(" ERR"); free(ob); break; }
+                vec_add(&A, ob, r); free(ob);
+                ZSTD_seekable_logFrame(fl, (unsigned)r, (unsigned)n, cf ? h : 0);
+                printf(" %u:%u:%u", (unsigned)r, (unsigned)n, cf ? h : 0);
+                pos += n; nf++;
+            } while (pos < X.n);
+            {   unsigned char tb[4096]; int guard = 0;
+                do { ZSTD_outBuffer o = { tb, sizeof tb, 0 }; wr = ZSTD_seekable_writeSeekTable(fl, &o); vec_add(&A, tb, o.pos); } while (wr != 0 && !ZSTD_isError(wr) && guard++ < 1000000); }
+            printf("\nrawarch frames=%u", nf); print_ret("table", wr); printf(" alen=%llu\n", (unsigned long long)A.n);
+            ZSTD_seekable_freeFrameLog(fl); ZSTD_freeCCtx(cc);
+        } else if (!strcmp(cmd, "stfree")) {        /* the independent seek table outlives its ZSTD_seekable: copy, free the seekable, then query */
+            unsigned n, i; ZSTD_seekTable* st;
+            if (!zs) { printf("stfree closed\n"); continue; }
+            st = ZSTD_seekTable_create_fromSeekable(zs);
+            close_seekable();
+            n = ZSTD_seekTable_getNumFrames(st);
+            printf("stfree n=%u :", n);
+            for (i = 0; i <= n + 1 && i < 40; i++)
+                printf(" %u:%llu:%llu:%llu:%llu", i, ZSTD_seekTable_getFrameCompressedOffset(st, i), ZSTD_seekTable_getFrameDecompressedOffset(st, i),
+                       (unsigned long long)ZSTD_seekTable_getFrameCompressedSize(st, i), (unsigned long long)ZSTD_seekTable_getFrameDecompressedSize(st, i));
+            printf(" o2f0=%u\n", ZSTD_seekTable_offsetToFrameIndex(st, 0));
+            ZSTD_seekTable_free(st);
+        } else if (!strcmp(cmd, "cbret")) {         /* cbret <v> : the callbacks return v (>= 0) on success from now on */
+            int v = 0; sscanf(line + off, "%d", &v); g_cb_ok = v < 0 ? 0 : v; printf("cbret %d\n", g_cb_ok);
         } else if (!strcmp(cmd, "cbfail")) {        /* cbfail seek|read <k> : the k-th next callback of that kind fails once (callback access only) */
             char what[16]; unsigned long long k = 0; what[0] = 0;
             sscanf(line + off, "%15s %llu", what, &k);
